@@ -346,6 +346,59 @@ def validity_rows():
     return out
 
 
+def merge_rows():
+    """{position: [(field, kind)]} read from the four Attr::merge functions.  kind: `or` (self.x.or(other.x)), `bool_or`
+    (self.x || other.x), `other` (other.x), `chain` (maps chained), `match` (anything else that is a match on both)"""
+    out = {}
+    for pos, rel in (("struct", "macros/src/attr/struct.rs"), ("enum", "macros/src/attr/enum.rs"), ("variant", "macros/src/attr/variant.rs"),
+                     ("field", "macros/src/attr/field.rs")):
+        src = read(rel)
+        m = re.search(r"fn merge\s*\(self, other: Self\)\s*->\s*Self\s*\{", src)
+        if not m:
+            raise TranslatorError("translator could not find Attr::merge in %s" % rel)
+        body, _ = balanced(src, m.end() - 1)
+        k = body.index("Self {")
+        fields, _ = balanced(body, body.index("{", k))
+        rows = []
+        fields = re.sub(r"//[^\n]*", "", fields)      # line comments between the fields
+        parts, depth, cur = [], 0, ""
+        for ch in fields:
+            if ch in "([{":
+                depth += 1
+            elif ch in ")]}":
+                depth -= 1
+            if ch == "," and depth == 0:
+                parts.append(cur)
+                cur = ""
+            else:
+                cur += ch
+        for part in parts + [cur]:
+            part = " ".join(part.split())
+            if not part:
+                continue
+            mm = re.match(r"(?:#\[[^\]]*\]\s*)?(\w+)\s*:\s*(.*)$", part)
+            if not mm:
+                raise TranslatorError("Attr::merge in %s: unreadable field %r" % (rel, part[:60]))
+            f, e = mm.group(1), mm.group(2)
+            if e == "self.%s.or(other.%s)" % (f, f):
+                kind = "or"
+            elif e == "self.%s || other.%s" % (f, f):
+                kind = "bool_or"
+            elif e == "other.%s" % f:
+                kind = "other"
+            elif e == "self.%s.into_iter().chain(other.%s).collect()" % (f, f):
+                kind = "chain"
+            elif e.startswith("match (self.%s, other.%s)" % (f, f)):
+                kind = "match"
+            elif re.fullmatch(r"self\.%s\.or\(other\.%s\)" % (f, f), e):
+                kind = "or"
+            else:
+                kind = "unknown: " + e[:80]
+            rows.append((f, kind))
+        out[pos] = rows
+    return out
+
+
 def documented_serde_keys():
     src = read("ts-rs/src/lib.rs")
     m = re.search(r"//! ## serde compatability(.*?)\n//! ##", src, re.S) or re.search(r"serde-compat(.*?)Supported serde attributes:(.*?)\n//!\s*\n//! ", src, re.S)
@@ -403,6 +456,9 @@ def generate():
                     "compat": lambda: "VCompat"}[a[0]]()
         L.append("Definition validity_rows_%s : list (list vatom * str) :=\n  %s." % (pos, coq_list(
             ["(%s, %s)" % (coq_list([atom(a) for a in atoms]), coq_str(msg)) for atoms, msg in rows], sep=";\n   ")))
+    for pos, rows in sorted(merge_rows().items()):
+        L.append("Definition merge_rows_%s : list (str * str) :=\n  %s." % (pos, coq_list(
+            ["(%s, %s)" % (coq_str(f), coq_str(k)) for f, k in rows], sep=";\n   ")))
     L.append("Definition documented_serde_keys : list str := %s." % coq_list([coq_str(k) for k in documented_serde_keys()]))
     return "\n".join(L) + "\n"
 
